@@ -710,30 +710,10 @@ def judge_match(args, impl):
     return None
 
 
-def lone_plus_nth(text):
-    """Known finding page-nth-lone-plus-crash: some `:nth()` of the prelude has the an+b part `+` alone (the
-    slice of the arguments that parse_page_selectors hands to tinycss2 is the single literal `+`)."""
-    import tinycss2
-    rule = tinycss2.parse_one_rule('@page ' + text + '{}')
-    for tok in getattr(rule, 'prelude', None) or []:
-        if tok.type != 'function' or tok.name != 'nth':
-            continue
-        nth = tok.arguments
-        for i, arg in enumerate(tok.arguments):
-            if arg.type == 'ident' and arg.value == 'of':
-                nth = tok.arguments[:i - 1]
-                break
-        if len(nth) == 1 and nth[0].type == 'literal' and nth[0].value == '+':
-            return True
-    return False
-
-
 def judge_parsesel(text, impl):
     """Only the clauses that need no second parser: well-formed simple selectors are accepted with
     the specificity triple (names, :first/:blank/:nth, :left/:right)."""
     import re
-    if impl == 'err:StopIteration' and lone_plus_nth(text):
-        return None         # known finding page-nth-lone-plus-crash
     if impl.startswith('err:'):
         return f'parse_page_selectors raised {impl} on {text!r}'
     simple = re.fullmatch(r'\s*([a-zA-Z][a-zA-Z0-9-]*)?((?::(?:left|right|first|blank))*)\s*', text)
@@ -1280,13 +1260,16 @@ def search(prop, run, failures):
     docs.quiet()
     collector = _Collector(prop, run)
     names = {f['name'] for f in failures if f['kind'] == 'correspondence'}
-    from harness import c14_percent, c14_regress, c14_sheet
+    from harness import c14_marks, c14_percent, c14_regress, c14_sheet
+    marks = lambda run, rng: c14_marks.correspondence(prop, run)           # noqa: E731
     sheet = lambda run, rng: c14_sheet.correspondence(prop, run)           # noqa: E731
     regress = lambda run, rng: c14_regress.correspondence(prop, run)       # noqa: E731
     percent = lambda run, rng: c14_percent.correspondence(prop, run)       # noqa: E731
     order = [('fixed-regressions', regress), ('fixed-regressions-pdf', regress),
              ('resolve-percentages', percent), ('page-box-percentages', percent),
              ('size-values', sheet), ('marks-bleed-values', sheet), ('sheet-documents', sheet),
+             ('sheet-page-boxes', sheet),
+             ('page-marks', marks),
              ('page-box', prop._page_box), ('page-min-max', prop._page_box), ('fixed-dimension', prop._fixed),
              ('variable-dimension', prop._variable), ('init-side', prop._sides), ('remake-side', prop._sides),
              ('page-states', prop._counters), ('update-counters', prop._counters),
@@ -1319,16 +1302,6 @@ def finding_media_box_mirror():
     document = docs.render(html)
     rects = pdf_boxes(document, 1.0)[0]
     return pdf_oracle(100.0, 200.0, [40, 0, 4, 0], 1, rects) is not None
-
-
-def finding_nth_lone_plus():
-    try:
-        docs.render('<style>@page :nth(+) { margin: 1px }</style><p>x')
-    except RuntimeError as exc:
-        return isinstance(exc.__cause__, StopIteration)
-    except StopIteration:
-        return True
-    return False
 
 
 def finding_margin_boxes_overlap():
@@ -1395,5 +1368,4 @@ def finding_element_start():
 
 def finding_replays():
     return {'element-from-named-page-crashes-margin-box': finding_element_named_page_crash,
-            'element-start-ignores-running-elements': finding_element_start,'page-group-not-started-on-first-page': finding_page_group_first_page,'page-group-index-counts-blank-page': finding_page_group_counts_blank,'page-groups-lost-on-remake': finding_page_groups_lost_on_remake,'margin-boxes-overlap-at-min-content': finding_margin_boxes_overlap,'media-box-vertical-mirror': finding_media_box_mirror,
-            'page-nth-lone-plus-crash': finding_nth_lone_plus}
+            'element-start-ignores-running-elements': finding_element_start,'page-group-not-started-on-first-page': finding_page_group_first_page,'page-group-index-counts-blank-page': finding_page_group_counts_blank,'page-groups-lost-on-remake': finding_page_groups_lost_on_remake,'margin-boxes-overlap-at-min-content': finding_margin_boxes_overlap,'media-box-vertical-mirror': finding_media_box_mirror}
